@@ -574,17 +574,27 @@ pub fn probe_bucket<'b, 'tx>(
             let mut c = b.cursor();
             let first = c.next().map(|d| data_to_pair(&d));
             let rest_last = c.last().map(|d| data_to_pair(&d));
+            // count() on a cursor that has already yielded one entry, and on an exhausted one
+            let mut c2 = b.cursor();
+            let _ = c2.next();
+            let count_after_one = c2.count();
+            let mut c3 = b.cursor();
+            while c3.next().is_some() {}
+            let count_exhausted = c3.count();
             let (lo, hi) = b.cursor().size_hint();
             let kv_last = b.kv_pairs().last().map(|kv| (kv.key().to_vec(), kv.value().to_vec()));
             let kv_count = b.kv_pairs().count();
             let bk_count = b.buckets().count();
             let bk_last = b.buckets().last().map(|(n, _)| n.name().to_vec());
             let into_last = b.cursor().into_iter().last().map(|d| data_to_pair(&d));
-            (last, count, nth1, first, rest_last, lo, hi, kv_last, kv_count, bk_count, bk_last, into_last)
+            (last, count, nth1, first, rest_last, lo, hi, kv_last, kv_count, bk_count, bk_last, into_last, count_after_one, count_exhausted)
         });
         match r {
-            Ok((last, count, nth1, first, rest_last, lo, hi, kv_last, kv_count, bk_count, bk_last, into_last)) => {
+            Ok((last, count, nth1, first, rest_last, lo, hi, kv_last, kv_count, bk_count, bk_last, into_last, count_after_one, count_exhausted)) => {
                 let n = model_all.len();
+                if count_after_one != n.saturating_sub(1) || count_exhausted != 0 {
+                    push("iter_count", format!("count() after one next() = {} (expected {}), on an exhausted cursor = {} (expected 0)", count_after_one, n.saturating_sub(1), count_exhausted));
+                }
                 if last != model_all.last().cloned() || into_last != model_all.last().cloned() {
                     push("iter_last", format!("cursor().last() gives {:?}, the last entry is {:?}", last.as_ref().map(|p| show(&p.0)), model_all.last().map(|p| show(&p.0))));
                 }
